@@ -149,6 +149,8 @@ fn build_attr(kind: &str, a: &str, b: &str, segs: &[(u32, u32)]) -> api::Attribu
         })),
         "extcomm" => wrap(A::ExtendedCommunities(api::ExtendedCommunitiesAttribute { communities: vec![ext(a, b)] })),
         "unknown" => wrap(A::Unknown(api::UnknownAttribute { flags: 0xc0, r#type: num(a), value: (0..num(b)).map(|i| i as u8 + 1).collect() })),
+        // a known type code with a three-octet value (malformed for each of them) under every flag octet class
+        "unknownflags" => wrap(A::Unknown(api::UnknownAttribute { flags: num(b), r#type: num(a), value: vec![1, 2, 3] })),
         "mpreach" => {
             let family = match a {
                 "none" => None,
@@ -614,7 +616,7 @@ fn build_nlri(kind: &str, a: &str, b: &str) -> api::Nlri {
                 _ => vec![api::FlowSpecRule {
                     rule: Some(api::flow_spec_rule::Rule::IpPrefix(api::FlowSpecIpPrefix {
                         r#type: if a == "badtype" { 77 } else { 1 },
-                        prefix_len: if a == "len300" { 300 } else { 24 },
+                        prefix_len: if a == "len300" { 300 } else if a == "len40" { 40 } else { 24 },
                         prefix: if a == "badprefix" {
                             "nope".into()
                         } else if b == "v6" {
@@ -622,7 +624,27 @@ fn build_nlri(kind: &str, a: &str, b: &str) -> api::Nlri {
                         } else {
                             "198.51.100.0".into()
                         },
-                        offset: 0,
+                        offset: if a == "offset200" { 200 } else { 0 },
+                    })),
+                }],
+            },
+        }),
+        "vpnflowspec" => N::VpnFlowSpec(api::VpnFlowSpecNlri {
+            rd: if a == "nord" { None } else { rd_ok() },
+            rules: match a {
+                "empty" => vec![],
+                _ => vec![api::FlowSpecRule {
+                    rule: Some(api::flow_spec_rule::Rule::IpPrefix(api::FlowSpecIpPrefix {
+                        r#type: if a == "badtype" { 77 } else { 1 },
+                        prefix_len: if a == "len300" { 300 } else if a == "len40" { 40 } else { 24 },
+                        prefix: if a == "badprefix" {
+                            "nope".into()
+                        } else if b == "v6" {
+                            "2001:db8::".into()
+                        } else {
+                            "198.51.100.0".into()
+                        },
+                        offset: if a == "offset200" { 200 } else { 0 },
                     })),
                 }],
             },
@@ -665,6 +687,17 @@ fn ip_mask(a: std::net::IpAddr, m: u8) -> (u8, u8, bool) {
     }
 }
 
+/// (mask, max, host bits) of the prefix component of an IPv6 flowspec NLRI; an offset beyond the length counts as a bad mask
+fn fs6_mask(components: &[flowspec::FlowspecV6Component]) -> (u8, u8, bool) {
+    let mut m = (0u8, 128u8, false);
+    for c in components {
+        if let flowspec::FlowspecV6Component::DstPrefix { prefix, offset } | flowspec::FlowspecV6Component::SrcPrefix { prefix, offset } = c {
+            m = (if *offset > prefix.mask { 255 } else { prefix.mask }, 128, false);
+        }
+    }
+    m
+}
+
 /// pi(Nlri) for spec/ApiValue NlriWellFormed
 fn nlri_desc(n: &Nlri, family: Family) -> String {
     let famok = samples::nlri_samples(family).first().map(|s| std::mem::discriminant(s) == std::mem::discriminant(n)).unwrap_or(false);
@@ -691,9 +724,17 @@ fn nlri_desc(n: &Nlri, family: Family) -> String {
             }
             ("FlowspecV4", m, true)
         }
-        Nlri::FlowspecV6(f) => ("FlowspecV6", (0, 128, false), true),
-        Nlri::FlowspecVpnV4(_) => ("FlowspecVpnV4", (0, 0, false), true),
-        Nlri::FlowspecVpnV6(_) => ("FlowspecVpnV6", (0, 0, false), true),
+        Nlri::FlowspecV6(f) => ("FlowspecV6", fs6_mask(&f.components), true),
+        Nlri::FlowspecVpnV4(f) => {
+            let mut m = (0u8, 32u8, false);
+            for c in &f.components {
+                if let flowspec::FlowspecV4Component::DstPrefix(p) | flowspec::FlowspecV4Component::SrcPrefix(p) = c {
+                    m = (p.mask, 32, p.mask <= 32 && host_bits4(p.addr, p.mask));
+                }
+            }
+            ("FlowspecVpnV4", m, true)
+        }
+        Nlri::FlowspecVpnV6(f) => ("FlowspecVpnV6", fs6_mask(&f.components), true),
         Nlri::Ls(_) => ("Ls", (0, 0, false), true),
         Nlri::SrPolicy(_) => ("SrPolicy", (0, 0, false), true),
         Nlri::Rtc(_) => ("Rtc", (0, 0, false), true),
@@ -836,7 +877,7 @@ fn c17_cases() {
             writeln!(out, "{s}").unwrap();
         } else {
             let family = fam(t[3]);
-            let api_nlri = build_nlri(t[2], t[4], if t[2] == "flowspec" && family.afi() == Family::AFI_IP6 { "v6" } else { t[5] });
+            let api_nlri = build_nlri(t[2], t[4], if (t[2] == "flowspec" || t[2] == "vpnflowspec") && family.afi() == Family::AFI_IP6 { "v6" } else { t[5] });
             let r = catch_unwind(AssertUnwindSafe(|| net_from_api(api_nlri, family)));
             let s = match r {
                 Err(e) => format!(
